@@ -350,6 +350,10 @@ func ruleConstDedup(p *Program, r *Reporter) {
 			}
 		}
 		if merges.IsValid() {
+			if ok, why := constIndexForm(p, a); ok {
+				r.OkNT(key, p.Pos(merges), why)
+				return
+			}
 			r.Undecided(key, p.Pos(merges), "the pool hands out the index of an existing constant on a path this rule does not understand (not a search that compares Type() and Inspect() of each entry — an index keyed by the printed form alone would merge 1 and \"1\", or /count/ and the name count): whether only equal constants are merged is not decided")
 			return
 		}
@@ -364,4 +368,142 @@ func ruleConstDedup(p *Program, r *Reporter) {
 	_ = types.Typ
 	_ = strings.Contains
 	r.Check(ok, key, p.Pos(cond.Pos()), "Type() and Inspect() both equal", fmt.Sprintf("the constant pool reuses an existing constant for a new literal without requiring equal type and equal printed form (%s): a later literal of another kind that prints the same (\"3.5\" and 3.5, \"ab+\" and /ab+/, 100000 and \"100000\") silently takes the earlier one's value and type", why))
+}
+
+// constIndexForm: the pool finds an existing constant through an index — a
+// map from (type, printed form) of a constant to its slot.  The key of every
+// look-up and of every insertion is a struct holding both Type() and Inspect()
+// of the constant being added; the slot recorded is the length of the pool
+// before the constant is appended; the index is only written in the pool
+// function; and whoever empties the pool empties the index too.
+func constIndexForm(p *Program, a *anchors) (bool, string) {
+	fn := a.addConstant
+	if len(fn.Params) < 2 {
+		return false, ""
+	}
+	obj := ssa.Value(fn.Params[1])
+	keyOK := func(k ssa.Value) bool {
+		ld, ok := k.(*ssa.UnOp)
+		if !ok || ld.Op != token.MUL {
+			return false
+		}
+		al, ok := ld.X.(*ssa.Alloc)
+		if !ok {
+			return false
+		}
+		hasType, hasText := false, false
+		for _, ref := range *al.Referrers() {
+			fa, ok := ref.(*ssa.FieldAddr)
+			if !ok {
+				continue
+			}
+			for _, r2 := range *fa.Referrers() {
+				st, ok := r2.(*ssa.Store)
+				if !ok {
+					continue
+				}
+				c, ok := st.Val.(*ssa.Call)
+				if !ok || !c.Call.IsInvoke() || c.Call.Value != obj {
+					return false
+				}
+				switch c.Call.Method.Name() {
+				case "Type":
+					hasType = true
+				case "Inspect":
+					hasText = true
+				default:
+					return false
+				}
+			}
+		}
+		return hasType && hasText
+	}
+	var lookups []*ssa.Lookup
+	var inserts []*ssa.MapUpdate
+	index := ""
+	for _, b := range fn.Blocks {
+		for _, ins := range b.Instrs {
+			switch x := ins.(type) {
+			case *ssa.Lookup:
+				if ld, ok := x.X.(*ssa.UnOp); ok && fieldKey(ld.X) != "" && x.CommaOk {
+					lookups = append(lookups, x)
+					index = fieldKey(ld.X)
+				}
+			case *ssa.MapUpdate:
+				if ld, ok := x.Map.(*ssa.UnOp); ok && fieldKey(ld.X) != "" {
+					inserts = append(inserts, x)
+				}
+			}
+		}
+	}
+	if len(lookups) != 1 || len(inserts) != 1 || index == "" {
+		return false, ""
+	}
+	if ld := inserts[0].Map.(*ssa.UnOp); fieldKey(ld.X) != index {
+		return false, ""
+	}
+	if !keyOK(lookups[0].Index) || !keyOK(inserts[0].Key) {
+		return false, ""
+	}
+	// the slot: the length of the pool read before the append
+	var app *ssa.Store
+	for _, b := range fn.Blocks {
+		for _, ins := range b.Instrs {
+			if st, ok := ins.(*ssa.Store); ok && fieldKey(st.Addr) == "evalfilter.Eval.constants" {
+				app = st
+			}
+		}
+	}
+	lc, isLen := isBuiltinCall(inserts[0].Value, "len")
+	if app == nil || !isLen || !dominatesInstr(lc, app) {
+		return false, ""
+	}
+	if l2, ok := lc.Call.Args[0].(*ssa.UnOp); !ok || fieldKey(l2.X) != "evalfilter.Eval.constants" {
+		return false, ""
+	}
+	// the index is written nowhere else, and emptied with the pool
+	for _, g := range p.LibFns {
+		for _, b := range g.Blocks {
+			for _, ins := range b.Instrs {
+				if mu, ok := ins.(*ssa.MapUpdate); ok && g != fn {
+					if ld, ok := mu.Map.(*ssa.UnOp); ok && fieldKey(ld.X) == index {
+						return false, ""
+					}
+				}
+			}
+		}
+	}
+	emptiesIndex := func(ins ssa.Instruction) bool {
+		st, ok := ins.(*ssa.Store)
+		if !ok || fieldKey(st.Addr) != index {
+			return false
+		}
+		_, isMake := st.Val.(*ssa.MakeMap)
+		return isMake
+	}
+	for _, g := range p.LibFns {
+		if g == fn {
+			continue
+		}
+		for _, b := range g.Blocks {
+			for _, ins := range b.Instrs {
+				st, ok := ins.(*ssa.Store)
+				if !ok || fieldKey(st.Addr) != "evalfilter.Eval.constants" {
+					continue
+				}
+				// somewhere in the same function (or a function it calls on
+				// every path) the index is emptied as well
+				together := false
+				for _, i2 := range b.Instrs {
+					if performs(i2, emptiesIndex, 2) {
+						together = true
+					}
+				}
+				if !together {
+					return false, ""
+				}
+			}
+		}
+	}
+	return true, "the pool finds an existing constant through an index keyed by Type() and Inspect() of the constant; the slot recorded is the pool's length before the append; the index is written only here and emptied wherever the pool is"
 }
